@@ -410,7 +410,7 @@ func main() {
 			}
 		}
 	}
-	wrows, carriers, iocalls := analyseWriters(<-pkgsCh, rawMod)
+	wrows, carriers, iocalls := analyseWriters(<-pkgsCh, rawMod, reach)
 	for _, r := range wrows {
 		if _, ok := idx[r.fn]; !ok {
 			problem("writer site %s (%s %q) in %s: function is not a node of the call graph", r.callee, r.kind, r.text, r.fn)
